@@ -6,7 +6,6 @@ import (
 	"fmt"
 	"math/rand"
 
-	"github.com/transparency-dev/witness/internal/feeder/bastion"
 	"github.com/transparency-dev/witness/internal/witness"
 )
 
@@ -47,7 +46,7 @@ func parseFuzzMain(args []string) error {
 		if k%3 == 0 {
 			in = mutate(rng, in)
 		}
-		try("parseBody", k, func(b []byte) error { _, _, _, err := bastion.VerifParseBody(bytes.NewReader(b)); return err }, in)
+		try("parseBody", k, func(b []byte) error { _, _, _, err := shimParseBody(bytes.NewReader(b)); return err }, in)
 		try("Proof.Unmarshal", k, func(b []byte) error { var p witness.Proof; return p.Unmarshal(b) }, in)
 	}
 	if err := tw.writeRun(events); err != nil {
